@@ -26,9 +26,14 @@ AtNo == [k |-> A, ns |-> <<>>, local |-> A, v |-> X, list |-> FALSE]
 AtNs(px, uri) == [k |-> px \o <<58>> \o A, ns |-> uri, local |-> A, v |-> X, list |-> FALSE]
 Y == <<121>>
 AtNoY == [k |-> A, ns |-> <<>>, local |-> A, v |-> Y, list |-> FALSE]
+TY == <<116,121,112,101>>                      \* "type"
+XUp == <<88>>
+TyNo(v) == [k |-> TY, ns |-> <<>>, local |-> TY, v |-> v, list |-> FALSE]
+TyNs(px, uri, v) == [k |-> px \o <<58>> \o TY, ns |-> uri, local |-> TY, v |-> v, list |-> FALSE]
 AttrChoices == {<<AtNoY, AtNs(Q, U2)>>, <<AtNs(Q, U2), AtNoY>>, <<AtNs(P, U1), AtNoY, AtNs(Q, U2)>>,      \* the same local name with DIFFERENT values
                 <<>>, <<AtNo>>, <<AtNs(P, U1)>>, <<AtNs(P, U2)>>, <<AtNs(DP, U1)>>, <<AtNo, AtNs(Q, U2)>>,
-                <<AtNs(P, U1), AtNs(Q, U2)>>, <<AtNs(Q, U2), AtNs(P, U1)>>, <<AtNs(DP, U2), AtNs(Q, U1), AtNo>>}
+                <<AtNs(P, U1), AtNs(Q, U2)>>, <<AtNs(Q, U2), AtNs(P, U1)>>, <<AtNs(DP, U2), AtNs(Q, U1), AtNo>>,
+                <<TyNo(XUp), TyNs(Q, U2, X)>>, <<TyNs(Q, U2, XUp), TyNo(X)>>}     \* the `type` attribute (case-insensitive value in HTML, exact in XML) twice, values differing in case
 
 Map(seq) == seq
 Maps == { <<>>,
@@ -71,6 +76,8 @@ AttrV(ns, op, v) == [k |-> "attr", ns |-> ns, name |-> A, op |-> op, val |-> v, 
 Forms3 == {Cx1(<<AttrV(ns, op, v)>>) : ns \in {NsA, NsB, NsP(Q)}, op \in {"eq", "ne", "pre"}, v \in {X, Y}}
     \* != under a subject that is NOT confined to the default namespace: the negation is about the attribute only
     \cup {Cx1(<<TypeS(tns, nm), AttrV(NsB, "ne", v)>>) : tns \in {NsA, NsP(P)}, nm \in {Star, E}, v \in {X, Y}}
+    \* the type attribute under *| and under a prefix: which attribute is looked at and how its value compares are decided together
+    \cup {Cx1(<<[k |-> "attr", ns |-> ns, name |-> TY, op |-> op, val |-> v, flag |-> "n"]>>) : ns \in {NsA, NsB, NsP(Q)}, op \in {"eq", "ne"}, v \in {X, XUp}}
 PoolSet == {[sel |-> <<f>>, ns |-> m] : f \in Forms \cup Forms2 \cup Forms3, m \in Maps}
 Pool == SetToSeq(PoolSet)
 ASSUME PrintT(ToJson([pool |-> Pool]))
